@@ -123,7 +123,7 @@ class CompileEngine:
             spans.append((cur, cur + n - 1, c))
             cur += n
             parts.append(body)
-        main = ["fn main() {"]
+        main = ["fn main() {", "    ::std::panic::set_hook(Box::new(|_| {}));"]
         for c in cases:
             if c.has_run and c.expect == "ok":
                 main.append('    __run_case("%s", %s::run);' % (c.cid, c.cid))
@@ -286,7 +286,8 @@ class CompileEngine:
                 if missing:
                     raise MachineryError("bin %s (rc=%s) did not report cases %s\n%s" % (
                         exe, p.returncode, missing[:5], p.stderr[-2000:]))
-        if results["canary_ok__"].run != "ok" or results["canary_fail__"].compile != "error":
+        if (self.mode != "check" and results["canary_ok__"].run != "ok") or results["canary_ok__"].compile != "ok" \
+                or results["canary_fail__"].compile != "error":
             raise MachineryError("canaries not observed as planted: ok=%s/%s fail=%s" % (
                 results["canary_ok__"].compile, results["canary_ok__"].run, results["canary_fail__"].compile))
         del results["canary_ok__"], results["canary_fail__"]
